@@ -636,10 +636,11 @@ class MetadataManager:
         among same-version files (possible after historical races) prefers the
         most recently modified.
         """
-        try:
-            all_files = self.storage.list_files(self.metadata_path)
-        except Exception:
-            return None
+        # A listing that FAILS is not a listing that found nothing: swallowing the
+        # error here made refresh() answer "no metadata", so every read reported
+        # a table whose pointer is missing as EMPTY during a storage outage (and
+        # create_table re-initialised it). Let the failure propagate.
+        all_files = self.storage.list_files(self.metadata_path)
 
         best: Optional[Tuple[int, str]] = None
         best_mtime = -1.0
